@@ -170,6 +170,37 @@ def eventProcess (sub : Sub) (sc : Script) (kd : Kinds) (cfg : Cfg) (x : Ctx) (t
   (callbacks sub sc kd .prepareEvent x cfg.prepareEvent s).bind fun _ s1 =>
     tryTransitions sub sc kd cfg x ts s1
 
+/-- `except BaseException as err:` of `AsyncEvent._trigger` — on_exception callbacks when there are any
+(the event then returns its `result`, still False), re-raise otherwise -/
+def exceptClause (sub : Sub) (sc : Script) (kd : Kinds) (cfg : Cfg) (x : Ctx) : R Bool → R Bool
+  | .ok b s => .ok b s
+  | .err e s =>
+    match cfg.onException with
+    | [] => .err e s
+    | hs => (callbacks sub sc kd .onException x hs s).bind fun _ s' => .ok false s'
+  | .oof => .oof
+
+/-- `finally:` of `AsyncEvent._trigger` — finalize callbacks run whatever happened; whatever they raise
+is swallowed (inner `try / except BaseException`) -/
+def finallyClause (sub : Sub) (sc : Script) (kd : Kinds) (cfg : Cfg) (x : Ctx) : R Bool → R Bool
+  | .ok b s =>
+    (match callbacks sub sc kd .finalize x cfg.finalize s with
+      | .ok _ s' => .ok b s'
+      | .err _ s' => .ok b s'
+      | .oof => .oof)
+  | .err e s =>
+    (match callbacks sub sc kd .finalize x cfg.finalize s with
+      | .ok _ s' => .err e s'
+      | .err _ s' => .err e s'
+      | .oof => .oof)
+  | .oof => .oof
+
+/-- the `try:` body of `AsyncEvent._trigger`: `if self._is_valid_source(state): await self._process(…)` -/
+def eventBody (sub : Sub) (sc : Script) (kd : Kinds) (cfg : Cfg) (ts : List Trans) (x : Ctx) (src : Nat) (s : St) : R Bool :=
+  match candidates ts src with
+  | none => if ignoreInvalid cfg src then .ok false s else .err .machineError s
+  | some cs => eventProcess sub sc kd cfg x cs s
+
 /-- `AsyncEvent._trigger`: try / except BaseException / finally around `_process`. -/
 def eventTrigger (sub : Sub) (sc : Script) (kd : Kinds) (cfg : Cfg) (ts : List Trans) (x : Ctx) (s : St) : R Bool :=
   let src := s.stateOf x.model
@@ -177,32 +208,7 @@ def eventTrigger (sub : Sub) (sc : Script) (kd : Kinds) (cfg : Cfg) (ts : List T
   match cfg.state? src with
   | none => .err .valueError s
   | some _ =>
-    let body : R Bool :=
-      match candidates ts src with
-      | none => if ignoreInvalid cfg src then .ok false s else .err .machineError s
-      | some cs => eventProcess sub sc kd cfg x cs s
-    -- except BaseException: on_exception callbacks when there are any (result stays False), else re-raise
-    let handled : R Bool :=
-      match body with
-      | .ok b s1 => .ok b s1
-      | .err e s1 =>
-        (match cfg.onException with
-          | [] => .err e s1
-          | hs => (callbacks sub sc kd .onException x hs s1).bind fun _ s2 => .ok false s2)
-      | .oof => .oof
-    -- finally: finalize callbacks; whatever they raise is swallowed
-    match handled with
-    | .ok b s1 =>
-      (match callbacks sub sc kd .finalize x cfg.finalize s1 with
-        | .ok _ s2 => .ok b s2
-        | .err _ s2 => .ok b s2
-        | .oof => .oof)
-    | .err e s1 =>
-      (match callbacks sub sc kd .finalize x cfg.finalize s1 with
-        | .ok _ s2 => .err e s2
-        | .err _ s2 => .err e s2
-        | .oof => .oof)
-    | .oof => .oof
+    finallyClause sub sc kd cfg x (exceptClause sub sc kd cfg x (eventBody sub sc kd cfg ts x src s))
 
 /-! ### `_process_async` and its queues
 
